@@ -51,6 +51,10 @@ pub trait Model: Sized {
     fn machinery_error(&self) -> Option<String> {
         None
     }
+    /// Did this run contain something beyond the plain happy path (a crash, a fault, ...)?
+    fn nontrivial(&self) -> bool {
+        false
+    }
 }
 
 #[derive(Clone, Debug)]
@@ -71,6 +75,7 @@ pub struct Stats {
     pub pruned: u64,
     pub max_depth: usize,
     pub distinct_outcomes: u64,
+    pub nontrivial_outcomes: u64,
     pub depth_capped_runs: u64,
     pub time_capped: bool,
     pub level_completed: i32,
@@ -95,6 +100,7 @@ struct Shared<'a, M: Model> {
     in_flight: AtomicUsize,
     visited: Vec<Mutex<HashSet<u128>>>,
     outcomes: Mutex<HashSet<u64>>,
+    nontrivial: AtomicU64,
     found: Mutex<BTreeMap<String, Found>>,
     runs: AtomicU64,
     trans_total: AtomicU64,
@@ -196,8 +202,13 @@ fn run_one<M: Model>(sh: &Shared<M>, prefix: &[u16], record: bool) -> Result<Run
         sh.trans_new.fetch_add(steps_new, Ordering::Relaxed);
         if leaf {
             let mut o = sh.outcomes.lock().unwrap();
-            if o.insert(trace) && o.len() <= 3 {
-                sh.samples.lock().unwrap().push((labels.clone(), m.log()));
+            if o.insert(trace) {
+                if m.nontrivial() {
+                    sh.nontrivial.fetch_add(1, Ordering::Relaxed);
+                }
+                if o.len() <= 3 {
+                    sh.samples.lock().unwrap().push((labels.clone(), m.log()));
+                }
             }
         }
         let vs = m.take_violations();
@@ -264,7 +275,10 @@ fn worker<M: Model>(sh: &Shared<M>) {
             }
         };
         idle_spins = 0;
-        match run_one(sh, &job, true) {
+        let res = std::panic::catch_unwind(std::panic::AssertUnwindSafe(|| run_one(sh, &job, true))).unwrap_or_else(|_| {
+            Err(format!("explorer worker panicked: {:?} (job {:?})", crate::sched::take_panics(), job))
+        });
+        match res {
             Ok(r) => {
                 let n = sh.runs.load(Ordering::Relaxed);
                 if sh.limits.recheck_every > 0 && n % sh.limits.recheck_every == 0 {
@@ -320,6 +334,7 @@ pub fn explore<M: Model>(cfg: &M::Cfg, max_bound: u32, limits: &Limits) -> Outco
             in_flight: AtomicUsize::new(0),
             visited: (0..SHARDS).map(|_| Mutex::new(HashSet::new())).collect(),
             outcomes: Mutex::new(HashSet::new()),
+            nontrivial: AtomicU64::new(0),
             found: Mutex::new(BTreeMap::new()),
             runs: AtomicU64::new(0),
             trans_total: AtomicU64::new(0),
@@ -355,6 +370,7 @@ pub fn explore<M: Model>(cfg: &M::Cfg, max_bound: u32, limits: &Limits) -> Outco
         total.pruned = sh.pruned.load(Ordering::Relaxed);
         total.max_depth = total.max_depth.max(sh.max_depth_seen.load(Ordering::Relaxed));
         total.distinct_outcomes = sh.outcomes.lock().unwrap().len() as u64;
+        total.nontrivial_outcomes = sh.nontrivial.load(Ordering::Relaxed);
         total.depth_capped_runs = sh.capped_runs.load(Ordering::Relaxed);
         total.determinism_rechecks += sh.rechecks.load(Ordering::Relaxed);
         for (k, f) in sh.found.lock().unwrap().iter() {
